@@ -100,7 +100,18 @@ def _apply_sifting(bdd):
         # placeholder for the visiting order of `set(bdd.vars)`; it sits
         # after nothing else: the model pops it before any swap order
         _Rec.names_slot = len(_Rec.events)
-        _Rec.events.append([])
+        slot = []
+        _Rec.events.append(slot)
+        try:
+            return _orig_apply_sifting(bdd)
+        finally:
+            # a pass that is aborted (a swap refused by a full table) has not visited
+            # every variable: the model pops the WHOLE order first, so the variables that
+            # were never reached are appended (their order cannot matter)
+            seen = set(slot)
+            for v in sorted(vid(x) + 1 for x in bdd.vars):
+                if v not in seen:
+                    slot.append(v)
     return _orig_apply_sifting(bdd)
 
 
@@ -197,8 +208,9 @@ def digest(b, vars_view=None):
             (l, vid(k)) for l, k in b._level_to_var.items()))
     ll = 'none' if b._last_len is None else str(b._last_len)
     ctx = 'T' if b._reordering_context else 'F'
+    mx = 'none' if b.max_nodes == sys.maxsize else str(b.max_nodes)
     return (f'succ={{{succ}}} pred={{{pred}}} ref={{{ref}}} mf={b._min_free} '
-            f'ite={{{ite}}} vars={{{vars_}}} l2v={{{l2v}}} ll={ll} ctx={ctx}')
+            f'ite={{{ite}}} vars={{{vars_}}} l2v={{{l2v}}} ll={ll} ctx={ctx} mx={mx}')
 
 
 class Extra:
@@ -813,6 +825,10 @@ class Impl:
 
     def op_set_roots(self, b, r):
         b.roots = set(r)
+
+    def op_set_max_nodes(self, b, n):
+        # the documented way: attribute assignment (`None` stands for the default)
+        b.max_nodes = sys.maxsize if n is None else n
 
     def op_cofactor(self, b, u, kind, values):
         return b.cofactor(u, _dict(kind, values))
